@@ -12,8 +12,8 @@
 
    Domain: evo_dom / no_retyped_variant as in C08; no_keep_arg S: no declaration is both keep and is_arg -- finding F-13a:
    such a type takes `remaining - 2` bytes of the whole buffer once its known fields are read (C13_is_arg_refuted). *)
-From PVGen Require Import Gen GenKeep GenSpec EvoSpec KeepSpec Proofs.GenBase Proofs.KeepP Proofs.KeepSizeP Proofs.KeepTopP Proofs.KeepViewP Proofs.KeepRetP Proofs.KeepWtP Proofs.KeepMainP FullSpec Proofs.KeepFullP.
-From PV Require Import Proofs.HeaderP.
+From PVGen Require Import Gen GenKeep GenSpec EvoSpec KeepSpec Proofs.GenBase Proofs.KeepP Proofs.KeepSizeP Proofs.KeepTopP Proofs.KeepViewP Proofs.KeepRetP Proofs.KeepWtP Proofs.KeepMainP FullSpec Proofs.KeepFullP GenUnsafe Proofs.KeepLinkedP.
+From PV Require Import Proofs.HeaderP Thrift.Unsafe Proofs.UnsafeP.
 Open Scope Z_scope.
 
 (* decode with retention: every retained chunk is, byte for byte, the encoding of exactly one field the reader ignores
@@ -238,3 +238,36 @@ Theorem C13_full_reader_err_repeated_refuted :
   view Wd (TyRef 0) (reenc Sd (TyRef 0) tvd) = Ok (GStruct [(1, GI32 7); (3, GStruct [(1, GBool false); (9, GI32 5)] [])] []).
 Proof. exact full_view_err_repeated_refuted. Qed.
 Print Assumptions C13_full_reader_err_repeated_refuted.
+
+(* the size clause for the LinkedBytes flavours.  (a) The bytes a value is written to do not depend on the flavour of the
+   buffer (contiguous, linked, linked with zero-copy), any protocol; (b) what is inserted as a node of its own is exactly
+   zc_total: the payloads and retained chunks of at least ZERO_COPY_THRESHOLD bytes, and nothing unless the buffer is
+   linked with zero-copy; (c) for a keep build written to a linked buffer the computed size is the length, the unchecked
+   writer over a reservation of that size emits the same segments, its zero_copy_len is zc_total, and the reserved room
+   it leaves is exactly zc_total (an inserted chunk uses no room). *)
+Theorem C13_bytes_flavour_independent : forall S p k k' t v,
+  gen_encode S p k t v = gen_encode S p k' t v.
+Proof. exact gen_encode_buffer_independent. Qed.
+Print Assumptions C13_bytes_flavour_independent.
+
+Theorem C13_zero_copy_total : forall S k v t c ss c',
+  enc_ty S PBinary k t v c = Ok (ss, c') -> zc_len ss = zc_total S k t v.
+Proof. exact enc_zc. Qed.
+Print Assumptions C13_zero_copy_total.
+
+Theorem C13_zero_copy_none : forall S k, k <> BLinked true -> forall v t, zc_total S k t v = 0.
+Proof. exact zc_total_nozc. Qed.
+Print Assumptions C13_zero_copy_none.
+
+Theorem C13_size_linked : forall S zc t v b,
+  uuids_ok v = true -> gen_encode S PBinary (BLinked zc) t v = Ok b ->
+  gen_encode S PBinary BContig t v = Ok b /\
+  gen_size S PBinary t v = Ok (Z.of_nat (length b)) /\
+  exists ss c' u',
+    enc_ty S PBinary (BLinked zc) t v w0 = Ok (ss, c') /\ flat ss = b /\
+    zc_len ss = zc_total S (BLinked zc) t v /\ (zc = false -> zc_len ss = 0) /\
+    copy_len ss + zc_len ss = Z.of_nat (length b) /\
+    uenc_ty S zc t v (uw_linked (Z.of_nat (length b))) = Ok (ss, u') /\
+    uw_zc u' = zc_len ss /\ uw_room u' = zc_len ss.
+Proof. exact keep_size_linked. Qed.
+Print Assumptions C13_size_linked.
